@@ -14,6 +14,7 @@ SINK = "<bgpfu::query::RpslEvaluator as rpsl::expr::eval::Evaluator<'a>>::sink_e
 READ_CAND = "<" + AGENT + "::policies::fetch::Maybe<" + AGENT + "::policies::Candidate> as netconf::message::ReadXml>::read_xml"
 
 EXPLANATION = (
+    "[Method] Decided by abstract interpretation of the THIR of compare, Candidate::evaluate, Policies::evaluate, the as-set resolver and the annotation reader (vlib/absint.py: local functions and closures inlined, Option/Result combinators and `?` interpreted, undecided branches fork the path): the verdict does not depend on how the source spells the logic. "
     "C03/R1 (TABLE): in Policies<Evaluated>::compare, over the exhaustive abstract domain evaluated in {absent, present/ranges=None, "
     "present/ranges=Some} x installed in {absent, present}: ranges=None yields no Update and no Delete, and Delete is produced only "
     "for (absent, present). C03/R2 (ORIGIN): Candidate::evaluate's `ranges` is Result::ok() of the evaluator result through map/map_err "
